@@ -213,6 +213,14 @@ def run_case(case):
                 level, text = "system", s.to_text(True, sp)
             else:
                 m = gen.make_molecule(rng, mean_units=rng.choice([1.5, 2, 3]))
+                if rng.random() < 0.25:
+                    # connector / suffix tokens written with a leading bond character ("...}=CC{...", "...}#CC"): parse-only inputs
+                    from ..ast import TokenAst
+
+                    for k, e in enumerate(m.elements):
+                        if k > 0 and isinstance(e, TokenAst) and not e.descriptors():
+                            e.root.bond = rng.choice(["=", "#", "="])
+                            cnt["leading_bond_tokens"] += 1
                 if rng.random() < 0.3:
                     m.mixture = rng.choice([("abs", 5000.0), ("pct", 25.0), ("abs", 5e7), ("pct", 0.5)])
                 if r < 0.4:
